@@ -63,8 +63,9 @@ impl Prop for C05 {
     }
     fn strategy(&self, _tier: Tier) -> BoxedStrategy<GraphCase> {
         let small = graph_strategy(&ALL_KINDS, 0, 8, edges_small, &[0, 1, 3, 3], 4);
+        let mid = graph_strategy(&ALL_KINDS, 9, 20, edges_large, &[0, 1, 3], 3);
         let large = graph_strategy(&ALL_KINDS, 21, 30, edges_large, &[0, 1, 3], 3);
-        prop_oneof![40 => small, 1 => large].boxed()
+        prop_oneof![40 => small, 2 => mid, 1 => large].boxed()
     }
     fn random_cases(&self, tier: Tier) -> u32 {
         tier.pick(150_000, 1_500_000)
@@ -107,7 +108,7 @@ impl Prop for C05 {
         }
         out.class(format!("kind_{}", ng.spec().label()));
         out.class(format!("wmode_{}", case.wmode));
-        out.class(if n <= 8 { "n<=8_bruteforce" } else { "n>20_parallel_path" });
+        out.class(if n <= 8 { "n<=8_bruteforce" } else if n <= 20 { "n_9_to_20" } else { "n>20_parallel_path" });
         if n <= 2 {
             out.class("n<=2");
         }
